@@ -3,7 +3,7 @@
 # like try_seed.sh, for interleaving-only seeds: the demo is a loom model (RUSTFLAGS="--cfg loom", feature loom).
 set -u
 D=$(realpath "$1"); shift
-WT=/var/tmp/seedwt
+WT=${SEEDWT:-/var/tmp/seedwt}
 export CARGO_NET_OFFLINE=true
 if [ ! -d $WT ]; then git -C /repo worktree add -q --detach $WT HEAD || exit 2; fi
 cd $WT && git checkout -q -- . && git clean -fdq tests src
